@@ -15,8 +15,11 @@ class LoopMixin(object):
         if node.orelse:
             raise AnalysisError("for/else not modelled (%s:%d)" % (
                 frame.func.module, node.lineno))
-        return self._each(node.iter, state, frame,
-                          lambda s, it: self.run_loop(node, s, frame, it))
+        def go(s, it):
+            if it[0] == "cursor":
+                it = ("rows", it[1])   # iterating a cursor = iterating its rows
+            return self.run_loop(node, s, frame, it)
+        return self._each(node.iter, state, frame, go)
 
     def st_While(self, node, state, frame):
         if node.orelse:
@@ -36,8 +39,8 @@ class LoopMixin(object):
                 return True
             if t[0] == "loopvar" and t[1] == loopid:
                 return True
-            if t[0] in ("row", "rows", "cursor", "lastrowid") and \
-                    isinstance(t[1], tuple) and t[1][0] == path and lo <= t[1][1] <= hi:
+            if t[0] in ("row", "rows", "cursor", "lastrowid", "coll") and \
+                    isinstance(t[1], tuple) and t[1][0] == path and lo < t[1][1] <= hi:
                 return True
             return False
         for k in [k for k in state.facts if mentions(k, local)]:
